@@ -230,6 +230,12 @@ var c09NlvCtr, c09FieldCtr int
 
 var c09ItemsCtr int
 
+// variants of a pair of values for an Interface-typed property (c09TwoValues): 0 = two single items with different ids,
+// 1..6 = lists in the item position and id-less links
+var c09IfaceCtr int
+
+const c09IfaceVariants = 7
+
 func c09TwoValues(g *Gen, t reflect.Type) (reflect.Value, reflect.Value) {
 	ca := g.Intn(len(c09Cur))
 	cb := (ca + 1 + g.Intn(len(c09Cur)-1)) % len(c09Cur)
@@ -270,6 +276,31 @@ func c09TwoValues(g *Gen, t reflect.Type) (reflect.Value, reflect.Value) {
 			default:
 				return c09ID(g, c)
 			}
+		}
+		// an item position may hold a list ("url ... identifies one or more links") or an id-less value: the variants
+		// are taken in turn (seven of them: coprime to the number of activity properties and of core properties, so
+		// every property meets every variant)
+		c09IfaceCtr++
+		cc := (cb + 1) % len(c09Cur)
+		if cc == ca {
+			cc = (cc + 1) % len(c09Cur)
+		}
+		switch c09IfaceCtr % c09IfaceVariants {
+		case 1: // one-member lists that differ in the member
+			return reflect.ValueOf(ap.ItemCollection{c09ID(g, ca)}), reflect.ValueOf(ap.ItemCollection{c09ID(g, cb)})
+		case 2: // two-member lists, only the FIRST member differs
+			last := c09ID(g, cc)
+			return reflect.ValueOf(ap.ItemCollection{c09ID(g, ca), last}), reflect.ValueOf(ap.ItemCollection{c09ID(g, cb), last})
+		case 3: // three-member lists, only the middle one differs
+			first, last := c09ID(g, cc), &ap.Object{ID: "https://example.com/last-member", Type: ap.NoteType}
+			return reflect.ValueOf(ap.ItemCollection{first, c09ID(g, ca), last}), reflect.ValueOf(ap.ItemCollection{first, c09ID(g, cb), last})
+		case 4: // id-less links that differ in where they point
+			return reflect.ValueOf(&ap.Link{Type: ap.LinkType, Href: c09ID(g, ca)}), reflect.ValueOf(&ap.Link{Type: ap.LinkType, Href: c09ID(g, cb)})
+		case 5: // one-member lists of objects with different ids
+			return reflect.ValueOf(ap.ItemCollection{&ap.Object{ID: c09ID(g, ca), Type: ap.NoteType}}), reflect.ValueOf(ap.ItemCollection{&ap.Object{ID: c09ID(g, cb), Type: ap.NoteType}})
+		case 6: // two-member lists of id-less links, only the first differs
+			last := &ap.Link{Type: ap.MentionType, Href: c09ID(g, cc)}
+			return reflect.ValueOf(ap.ItemCollection{&ap.Link{Type: ap.LinkType, Href: c09ID(g, ca)}, last}), reflect.ValueOf(ap.ItemCollection{&ap.Link{Type: ap.LinkType, Href: c09ID(g, cb)}, last})
 		}
 		return reflect.ValueOf(mk(ca)), reflect.ValueOf(mk(cb))
 	case t == tNlv:
@@ -586,6 +617,9 @@ func c09Sections(g *Gen, cc *c09Cases, n int, tier string, wide bool) []ap.Item 
 			if ft == tNlv {
 				variants = 4
 			}
+			if ft.Kind() == reflect.Interface {
+				variants = c09IfaceVariants // single items, lists in the item position, id-less links: each once
+			}
 			for v := 0; v < variants; v++ {
 				va, vb := c09TwoValues(g, ft)
 				a, b := c09With(x, f, va), c09With(x, f, vb)
@@ -601,6 +635,31 @@ func c09Sections(g *Gen, cc *c09Cases, n int, tier string, wide bool) []ap.Item 
 				}
 				if (ki+v)%5 == 0 {
 					emit(a, b, fmt.Sprintf("directed sensitive %s.%s variant %d", structTypes[ki].Name(), f, v))
+				}
+			}
+			if ft.Kind() == reflect.Interface {
+				// a one-member list against the bare member.  NOT judged: the property text speaks of "changing" a property,
+				// DESIGN 7 / Appendix A read "distinguishing" for lists as "different membership", and [m] and m name the same
+				// member (JSON-LD does not tell them apart; C01's normal form keeps the list form) - whether the two forms
+				// of one value must compare equal or unequal is not said.  Counted by answer, and sent to the correspondence
+				// check (the model must agree with the code whatever the answer is); a panic is a violation.
+				m := c09ID(g, ki+len(f))
+				a, b := c09With(x, f, reflect.ValueOf(ap.ItemCollection{m})), c09With(x, f, reflect.ValueOf(m))
+				for _, pr := range [][2]ap.Item{{a, b}, {b, a}} {
+					r, p, msg := c09Eq(pr[0], pr[1])
+					rep.Evaluations++
+					switch {
+					case p:
+						violate("ItemsEqual never panics", pr[0], pr[1], "no panic", show(r, p, msg), "")
+					case r:
+						rep.Count("list-vs-member:equal (not judged)")
+					default:
+						rep.Count("list-vs-member:unequal (not judged)")
+					}
+				}
+				if ki%4 == 0 {
+					emit(a, b, fmt.Sprintf("directed list vs member %s.%s", structTypes[ki].Name(), f))
+					emit(b, a, fmt.Sprintf("directed list vs member %s.%s swapped", structTypes[ki].Name(), f))
 				}
 			}
 		}
